@@ -319,7 +319,13 @@ func (s Segment) Backup(targetDir string) error {
 		return fmt.Errorf("backup index rel: %w", err)
 	}
 	targetIndex := filepath.Join(targetDir, indexName)
-	if err := copyFile(s.Index, targetIndex); err != nil {
+	if _, err := os.Stat(s.Index); errors.Is(err, os.ErrNotExist) {
+		// index files are rebuilt on demand, the segment has none at the moment;
+		// do not keep one that an earlier backup left in the target
+		if err := os.Remove(targetIndex); err != nil && !errors.Is(err, os.ErrNotExist) {
+			return fmt.Errorf("backup index remove: %w", err)
+		}
+	} else if err := copyFile(s.Index, targetIndex); err != nil {
 		return fmt.Errorf("backup index copy: %w", err)
 	}
 
